@@ -75,6 +75,8 @@ def diff_case(draw: Any) -> dict[str, Any]:
         "loader": draw(st.sampled_from(LOADERS)),
         "mask": draw(st.integers(0, 15)),
         "via": draw(st.sampled_from(["from_string", "get_template"])),
+        # drops whose integer properties change on every read: equal output needs equal evaluation counts
+        "counting": draw(st.integers(0, 3)) == 0,
         "undefined": draw(st.sampled_from(["default", "default", "default", "strict", "falsy"])),
         # resource limits are enforced by hand-written sync/async twins as well
         "limits": draw(st.sampled_from([None, None, None, {"loop_iteration_limit": 6}, {"loop_iteration_limit": 12},
@@ -120,7 +122,8 @@ class C03(Prop):
     )
     assumptions = [
         "outcome = output text, or (error class, template name, token start); error messages are not compared",
-        "drops are pure (value is a function of the key), so re-evaluation of a condition on the async path is unobservable",
+        "most drops are pure (value is a function of the key); a quarter of the differential cases use counting "
+        "drops, whose integer properties change on every read, so that a differing number of evaluations is observable",
         "interleavings are explored only at the harness' await points; OS-thread interleavings of run_in_executor are not controlled",
     ]
     batch = 250
@@ -175,6 +178,28 @@ class C03(Prop):
             for pol in ("strict", "falsy"):
                 yield {"kind": "diff", "src": src, "templates": {}, "data": {"n": 3, "nums": [1, 2]}, "loader": "dict",
                        "mask": 0, "via": "from_string", "limits": None, "undefined": pol, "family": "strict-twins"}
+        # every expression is evaluated the same number of times in both modes (data that changes per read)
+        for src in (
+            "{% if false %}I{% elsif u.k > 0 %}E{{ u.k }}{% else %}L{% endif %}|{{ u.k }}",
+            "{% if u.k == 9 %}I{% elsif u.k == 1 %}E{% elsif u.k == 2 %}F{% else %}L{% endif %}|{{ u.k }}",
+            "{% unless u.k == 0 %}I{% elsif u.k == 1 %}E{% else %}L{% endunless %}|{{ u.k }}",
+            "{% case u.k %}{% when 5 %}a{% when 0 %}b{% when u.k %}c{% else %}d{% endcase %}|{{ u.k }}",
+            "{% for i in (u.k..u.k) %}{{ i }}{% else %}none{% endfor %}|{{ u.k }}",
+            "{% for i in nums limit: u.k offset: u.k %}{{ i }}{% endfor %}|{{ u.k }}",
+            "{{ u.k if u.k == 1 else u.k }}|{{ u.k }}", "{{ u.k | plus: u.k | default: u.k }}|{{ u.k }}",
+            "{% assign v = u.k %}{% capture c %}{{ u.k }}{% endcapture %}{{ c }}{{ v }}|{{ u.k }}",
+            "{% with a: u.k %}{{ a }}{{ a }}{% endwith %}|{{ u.k }}", "{% cycle u.k, u.k %}{% cycle u.k, u.k %}|{{ u.k }}",
+            "{% render 'p', a: u.k %}{% include 'p', a: u.k %}|{{ u.k }}", "{% render 'p' for nums as a %}|{{ u.k }}",
+            "{% macro m a %}{{ a }}{{ a }}{% endmacro %}{% call m u.k %}{% call m a: u.k %}|{{ u.k }}",
+            "{{ nums | map: i => u.k | join: ',' }}|{{ u.k }}", "{{ nums | where: i => i == u.k | join: ',' }}|{{ u.k }}",
+            "{{ \"${u.k}-${u.k}\" }}|{{ u.k }}", "{% if u.k and u.k or u.k %}t{% endif %}|{{ u.k }}",
+            "{% tablerow i in nums cols: u.k %}{{ u.k }}{% endtablerow %}|{{ u.k }}",
+            "{% liquid\nif u.k == 5\necho 'a'\nelsif u.k == 1\necho u.k\nendif %}|{{ u.k }}",
+        ):
+            for loader in ("dict", "adict"):
+                yield {"kind": "diff", "src": src, "templates": {"p": "[{{ a }}{{ u.k }}]"},
+                       "data": {"u": {"k": 0}, "nums": [1, 2, 3]}, "loader": loader, "mask": 0, "via": "from_string",
+                       "limits": None, "counting": True, "family": "evaluation-counts"}
         # depth and output limits across include / render / extends chains
         chain = {"d1": "1{% include 'd2' %}", "d2": "2{% render 'd3' %}", "d3": "3{% include 'd4' %}", "d4": "4{% render 'd5' %}",
                  "d5": "5", "base": "[{% block b %}B{% endblock %}]",
@@ -277,7 +302,7 @@ class C03(Prop):
             return make_env(shopify=True, loader=self._loader(kind, templates, tmp), limits=limits, undefined=policy)
 
         def data() -> dict[str, Any]:
-            d = wrap_async(case["data"], case["mask"])
+            d = wrap_async(case["data"], case["mask"], counting=bool(case.get("counting")))
             if isinstance(d, dict):
                 d = dict(d)
             else:  # top level must be a plain dict for **kwargs
